@@ -88,6 +88,7 @@ def regenerate():
     notes = {}
     notes["cfg"] = gen_cfg.generate(os.path.join(COQ, "Gen"), interpreters(), worker_env())
     notes["src"] = translate_src.generate(REPO, os.path.join(COQ, "Gen", "Src.v"))
+    notes["heap"] = translate_src.generate_heap(REPO, os.path.join(COQ, "Gen", "SrcHeap.v"))
     return notes
 
 
